@@ -16,7 +16,7 @@ pub fn gen(seed: u64, cases: usize, flavour: &str, path: &str) {
     for _ in 0..cases {
         g.line("RESET");
         g.stats.bump("cases");
-        let client = *g.rng.pick(&["test", "test", "eager", "lazy"]);
+        let client = *g.rng.pick(&["test", "test", "eager", "lazy", "slow"]);
         g.line(&format!("CLIENT {client}"));
         let nc = g.rng.below(3);
         let mut cl = String::new();
@@ -265,7 +265,7 @@ pub fn run(ops: &str, annot: &str, imp: &str) {
                 run_case(s, id, body, &mut out);
             }
             k => {
-                let mut c = Wrap::new(src, k == "lazy");
+                let mut c = Wrap::new(src, k);
                 let id = block_on(c.init("D".to_string())).unwrap().backtest_id;
                 let b = block_on(UistBrokerBuilder::new().with_client(c, id).with_trade_costs(costs).build());
                 let s = StaticWeightStrategyBuilder::new().with_brkr(b).with_weights(weights).default();
